@@ -244,3 +244,22 @@ package onnx
 //@             (exists i :: 0 <= i && i < $i && lastnamed(protos, i, $i) && vname(protos[i]) == name && shape_is(shapes[name], protos[i]))
 //@   loop 2 invariant len(shape) == len(dims) && fresh(shape) && base(shape) != 0 && off(shape) == 0
 //@   loop 2 invariant forall d :: 0 <= d && d < $i ==> shape[d].Size == dimv(dims[d]) && (shape[d].IsDynamic <==> dimv(dims[d]) == 0)
+
+// ---------------------------------------------------------------------------------------
+// Initializers (C12, C18)
+
+//@ spec inits_non_nil(g *GraphProto) bool = g == nil || (forall i :: 0 <= i && i < len(g.Initializer) ==> g.Initializer[i] != nil)
+
+//@ func (*GraphProto).Params
+//@   tags C12,C18
+//@   requires inits_non_nil(g)
+//@   ensures err == nil ==> result != nil && fresh(result) && (forall key string :: key in result ==> result[key] != nil)
+//@   ensures err != nil ==> result == nil
+//@   ensures all_decoded: err == nil && g != nil ==> (forall i :: 0 <= i && i < len(g.Initializer) ==> g.Initializer[i].Name in result && result[g.Initializer[i].Name] != nil)
+//@   loop 1 invariant res != nil && fresh(res) && (forall k :: 0 <= k && k < $i ==> initializers[k].Name in res && res[initializers[k].Name] != nil) &&
+//@          (forall key string :: key in res ==> res[key] != nil)
+
+//@ func getNamesFromValueProto
+//@   tags C01,C13
+//@   ensures len(result) == len(protos) && (len(protos) > 0 ==> fresh(result)) && (forall k :: 0 <= k && k < len(protos) ==> result[k] == vname(protos[k]))
+//@   loop 1 invariant len(res) == len(protos) && fresh(res) && (forall k :: 0 <= k && k < $i ==> res[k] == vname(protos[k]))
